@@ -81,14 +81,14 @@ def script_msg_stale(_=None):
 
 
 def script_ctx_expired(_=None):
-    """2-fragment guaranteed payload: second fragment lost twice; an unrelated fragmented message arrives after the 2.0 s expiry and
+    """2-fragment guaranteed payload: every copy of the second fragment is lost for 2 s; an unrelated fragmented message arrives after the 2.0 s expiry and
     sweeps the partly filled context; the third copy then opens a fresh context that can never complete."""
     w = W.ConnWorld()
     try:
         def sends(tick, name, world):
             if name == "c" and tick == 0:
                 return [(2000, -1, True)]
-            if name == "c" and tick == 123:
+            if name == "c" and tick == 121:
                 return [(2000, 0, False)]
             return []
 
@@ -96,7 +96,7 @@ def script_ctx_expired(_=None):
             b = world.ev[-1]
             carries = b.get("ev") == "build" and any(m["type"] == 7 and m["idx"] == 2 and m["pid"] == 1 for m in b["msgs"])
             if name == "c" and carries:
-                return [] if tick < 100 else [6]
+                return [] if tick < 119 else [8]      # every copy for almost 2 s is lost, the next one is slow
             return [0]
         return w.run(W.FnPolicy(sends, fate), 260, heal_after=200, quiesce_ticks=300)
     finally:
